@@ -88,6 +88,24 @@ def s1_stability(ctx, rid, fx, cls, src="self.source", alt=None, alt_reason="", 
     return n
 
 
+def _valid_consulted(fx, reg):
+    """The copy `reg` of a whole endpoint record is only ever used together with its own valid: `reg` is connected as a record
+    (connect copies valid) or `reg.valid` is read somewhere in the class."""
+    for c in fx.conns:
+        if norm(c["conn"].src) == reg:
+            return True
+    want = reg + ".valid"
+    for a in fx.assigns:
+        if a.kind in ("opaque",):
+            continue
+        if want in q.paths(a.value) or any(want in q.paths(c) for c, _ in a.guards):
+            return True
+    for t in fx.trans:
+        if any(want in q.paths(c) for c, _ in t.guards):
+            return True
+    return False
+
+
 def s2_sampling(ctx, rid, fx, cls, sink="self.sink", extra_ok=()):
     """A sink data field reaches a sync target only on an accepted/valid token."""
     Vs = sink + ".valid"
@@ -112,8 +130,8 @@ def s2_sampling(ctx, rid, fx, cls, sink="self.sink", extra_ok=()):
             fv = inl.inline(B.from_expr(a.value))
             if B.entails(fv, B.A(Vs)):
                 ok, how = True, "value&valid"
-        if not ok and whole:
-            ok, how = True, "whole-record(valid travels with data)"
+        if not ok and whole and _valid_consulted(fx, a.t):
+            ok, how = True, "whole-record(valid travels with data and is consulted)"
         if not ok:
             # (iii) companion valid sampled under the same guard
             gt = a.gtext()
@@ -279,7 +297,7 @@ def s4_hold(ctx, rid, fx, cls, fsm_info, outputs):
     return n
 
 
-def s4_hold_flags(ctx, rid, fx, cls, fsm_info, outputs):
+def s4_hold_flags(ctx, rid, fx, cls, fsm_info, outputs, upstream=None):
     """In-state form of hold-until-ready: where an outgoing valid `v` is a function of registers (done flags, skid flags), every
     update of such a register made in a state that drives `v` either keeps `v` asserted or happens under `ready_v`:
         state S & G_update & F_v  =>  ready_v | F_v[r := new value]."""
@@ -311,9 +329,16 @@ def s4_hold_flags(ctx, rid, fx, cls, fsm_info, outputs):
             # at most once, for requests generated from flags only (valid = f(done flags)): in the cycle of the handshake the
             # state is left or a register update turns the valid off.  Pass-through valids (a function of an upstream valid) are
             # consumed by the upstream ready and are not judged here.
-            if not regs or not all(x in regs or x.startswith("fsm@") for x in B.atoms(Fv)):
+            up = (upstream or {}).get(vp)
+            if up is not None and up[0] in B.atoms(Fv):
+                pass        # pass-through of an upstream beat: judged against the upstream ready below
+            elif not regs or not all(x in regs or x.startswith("fsm@") for x in B.atoms(Fv)):
                 continue
             off = B.F
+            if up is not None and up[0] in B.atoms(Fv):
+                fur = inl.formula_of_path(up[1])
+                if fur is not None:
+                    off = B.Or(off, fur)
             for r, asg in regs.items():
                 for a in asg:
                     if not B.satisfiable(B.And(state_atom_of(fsm_info, st), B.subst(Fv, {r: B.T if a.v == "1" else B.F}))):
